@@ -27,7 +27,7 @@ RULE = (
     "ordered markers with event identity, on_transition arguments) must be byte-identical; plus a PYTHONHASHSEED "
     "subprocess sample; plus independence of process history: every sequence up to the length bound over three machines "
     "(parameterised guard with a 3-argument implementation, the same with a legacy 2-argument implementation, unparameterised) "
-    "is built with fresh callables, run and dropped in one process, each trace must equal the one the machine has by construction; distinct_nontrivial = distinct (machine, engine, transition, permutation) executions"
+    "is built with fresh callables, run and dropped in one process, each trace must equal the one the machine has by construction; plus independence of generated ids: an actor scenario addressed by bare service keys is run under five generated-id menus (sequential, descending, ids containing each service key), all traces must agree; distinct_nontrivial = distinct (machine, engine, transition, permutation) executions"
 )
 BOUNDS = {
     "quick": "TREE(N<=4) with parallel/history, all (<=24) rank permutations, both engines; hash seeds {1,2}; process-history sequences of length <=4 over 3 machines",
@@ -144,9 +144,98 @@ def run_history(tier: str) -> Dict[str, Any]:
     return res
 
 
+# ------------------------------------------------------------------ independence of generated identifiers
+ID_KEYS = ("db", "cafe", "a1")
+
+
+class _UuidShim:
+    """Stands in for the `uuid` module inside the engines: generated ids come from an adversarial menu."""
+
+    def __init__(self, gen):
+        self.gen = gen
+        self.n = 0
+
+    def uuid4(self):
+        self.n += 1
+        return self.gen(self.n)
+
+
+def id_generators() -> Dict[str, Any]:
+    """Generated-id menus: sequential, and ids made of / containing the service keys and explicit ids the machine uses
+    (a bare key must never match INSIDE a generated id)."""
+    gens = {"sequential": lambda n: f"{n:08x}-0000-4000-8000-{n:012x}"}
+    for k in ID_KEYS:
+        gens[f"contains-{k}"] = (lambda k: (lambda n: f"{(k * 8)[:8]}-{(k * 4)[:4]}-4{(k * 3)[:3]}-8{(k * 3)[:3]}-{n:012x}"))(k)
+    gens["descending"] = lambda n: f"{0xffffffff - n:08x}-ffff-4fff-8fff-{0xffffffffffff - n:012x}"
+    return gens
+
+
+def run_ids() -> Dict[str, Any]:
+    """Parent spawns four children anonymously (auto-generated ids) from services named like hex strings; sendTo by bare
+    service key, forwardTo, stopChild by key; the trace must be the same under every generated-id menu."""
+    from xstate_statemachine import MachineLogic, create_machine, actions as XA
+    from xstate_statemachine import interpreter as ai, sync_interpreter as si
+    import uuid as real_uuid
+
+    res = dict(states=0, transitions=0, executions=0, distinct_count=0, violations=[], samples=[], caps=[])
+
+    def build(log):
+        def kid(name):
+            return create_machine({"id": name, "initial": "x", "states": {"x": {"on": {"PING": {"actions": ["got", XA.send_parent("PONG_" + name)]}}}}},
+                                  logic=MachineLogic(actions={"got": lambda i, c, e, a, name=name: log.append(("child-got", name))}))
+        on = {"SPAWN": {"actions": [XA.spawn_child(k) for k in ID_KEYS] + [XA.spawn_child("worker")]}}
+        for k in ID_KEYS:
+            on["GO_" + k] = {"actions": [XA.send_to(k, "PING")]}
+            on["PONG_" + k] = {"actions": ["pong_" + k]}
+            on["KILL_" + k] = {"actions": [XA.stop_child(k)]}
+        acts = {"pong_" + k: (lambda i, c, e, a, k=k: log.append(("pong", k))) for k in ID_KEYS}
+        return create_machine({"id": "p", "initial": "a", "states": {"a": {}}, "on": on},
+                              logic=MachineLogic(actions=acts, services={**{k: kid(k) for k in ID_KEYS}, "worker": kid("worker")}))
+
+    script = ["SPAWN"] + ["GO_" + k for k in ID_KEYS] + ["KILL_" + ID_KEYS[0]] + ["GO_" + k for k in ID_KEYS]
+    for engine in ENGINES:
+        traces = {}
+        for gname, gen in id_generators().items():
+            from ..drivers import install_uuid, restore_uuid
+
+            saved = install_uuid(gen)
+            try:
+                log: List[tuple] = []
+                h = Harness({"id": "x", "states": {}}, with_plugin=False, threads=True, budget=None)
+                h._machine = build(log)
+                d = h.driver(engine)
+                try:
+                    d.start()
+                    for ev in script:
+                        d.send(ev)
+                        d.settle()
+                    traces[gname] = (tuple(log), tuple(sorted(strip(k) for k in d.interp._actors)))
+                finally:
+                    d.close()
+            finally:
+                restore_uuid(saved)
+            res["executions"] += 1
+            res["distinct_count"] += 1
+        ref = traces["sequential"]
+        for gname, tr in traces.items():
+            if tr != ref:
+                res["violations"].append(dict(
+                    signature=f"C16|generated-ids-influence-behaviour|{engine}", clause="id-dependence",
+                    what=f"{engine}: with generated ids of the form '{gname}' the run differs from the run with sequential ids: {tr} vs {ref}",
+                    size=1, replay=dict(kind="ids")))
+                break
+    res["samples"].append(dict(kind="generated ids", menus=sorted(id_generators()), script=script))
+    return res
+
+
+def strip(actor_id: str) -> str:
+    parts = actor_id.split(":")
+    return ":".join(parts[:2])
+
+
 def units(tier: str) -> List[Any]:
     n = 4 if tier == "quick" else 5
-    out = [("history", tier)]
+    out = [("history", tier), ("ids", tier)]
     for t in F.trees_upto(n):
         kinds = F.tree_kinds(t)
         if "P" in kinds or "Hs" in kinds or "Hd" in kinds:
@@ -170,6 +259,10 @@ def trace_of(d, mark) -> tuple:
 def run_unit(unit):
     if unit[0] == "history":
         r = run_history(unit[1])
+        r["states"] = r["executions"]
+        return r
+    if unit[0] == "ids":
+        r = run_ids()
         r["states"] = r["executions"]
         return r
     tree, tier = unit
@@ -271,6 +364,11 @@ def run_unit(unit):
 def replay(payload):
     from .c01 import _tuplify
 
+    if payload.get("kind") == "ids":
+        r = run_ids()
+        for v in r["violations"]:
+            print("  ", v["what"][:400])
+        return r["violations"]
     if payload.get("kind") == "history":
         r = run_history("thorough")
         for v in r["violations"]:
